@@ -37,6 +37,11 @@ const (
 	KTTL0
 	KWithOPT
 	KWeird
+	// Truncated (TC=1) negative and failure answers: incomplete, so never to
+	// be cached, whatever their rcode.
+	KTruncNX
+	KTruncNodata
+	KTruncServfail
 	// KErr: the upstream handler returns an error.  KSilent: it returns
 	// without writing anything.  Both are produced by the harness's upstream
 	// wrapper, not by Answer.
@@ -47,7 +52,7 @@ const (
 
 // KindNames are printable names of the kinds.
 var KindNames = [...]string{"A", "A-mixed", "CNAME", "NODATA+SOA", "NODATA-noSOA", "NXDOMAIN+SOA", "NXDOMAIN-empty",
-	"SERVFAIL", "SERVFAIL-longTTL", "REFUSED", "truncated", "TTL0", "with-OPT", "weird-answer", "upstream-error", "upstream-silent"}
+	"SERVFAIL", "SERVFAIL-longTTL", "REFUSED", "truncated", "TTL0", "with-OPT", "weird-answer", "truncated-NXDOMAIN", "truncated-NODATA", "truncated-SERVFAIL", "upstream-error", "upstream-silent"}
 
 // TTLs is the TTL alphabet.
 var TTLs = [...]uint32{1, 2, 3, 5, 30, 45, 300}
@@ -186,6 +191,16 @@ func Answer(req *dns.Msg, tag string, alwaysAD bool) (resp *dns.Msg) {
 		// NOERROR whose answer section has neither the asked type nor a
 		// CNAME/SIG: documented as not cacheable.
 		resp.Answer = []dns.RR{&dns.MX{Hdr: hdr(dns.TypeMX, ttl), Mx: "mx.test.", Preference: 1}}
+	case KTruncNX:
+		resp.Truncated = true
+		resp.Rcode = dns.RcodeNameError
+		resp.Ns = []dns.RR{soa(ttl, ttl+20)}
+	case KTruncNodata:
+		resp.Truncated = true
+		resp.Ns = []dns.RR{soa(ttl+20, ttl)}
+	case KTruncServfail:
+		resp.Truncated = true
+		resp.Rcode = dns.RcodeServerFailure
 	}
 
 	if do && len(resp.Answer) > 0 && resp.Rcode == dns.RcodeSuccess && !resp.Truncated {
